@@ -68,6 +68,15 @@ def run(rep, tier):
                         cases.append((js, cname, layout, "case_cxof", (a, nm, cl, 9, 33, fixed),
                                       "cxof%s name %s custom %d declared %d" % (sfx, "NULL" if nm is None else len(nm), cl, fixed),
                                       "ascon_xof%s_init_custom" % sfx))
+    # a copied state (taken while absorbing, mid-block, or while squeezing) continues to the specification's digest
+    for js, cname, layout, maxs, units in prep:
+        for va in (False, True):
+            nm = "ascon_xof%s" % ("a" if va else "")
+            for (ml, s1, s2, m2) in (((9, 0, 16, 5), (8, 0, 9, 0), (9, 5, 12, 0), (3, 0, 8, 8)) if tier == "quick" else
+                                     tuple((ml, s1, s2, m2) for ml in (0, 3, 7, 8, 9, 17) for (s1, m2) in ((0, 0), (0, 5), (0, 8), (3, 0), (8, 0), (13, 0))
+                                           for s2 in (1, 8, 19))):
+                cases.append((js, cname, layout, "case_xof_copy", (va, ml, s1, s2, m2),
+                              "%s copy after absorbing %d, squeezing %d; then +%d in, %d out" % (nm, ml, s1, m2, s2), nm + "_copy"))
     # a re-initialised state gives the specification's digest as a fresh one does
     for js, cname, layout, maxs, units in prep:
         for va in (False, True):
